@@ -155,15 +155,24 @@ def art(rng, run):
            "mime": list(rng.choice([b"image/jpeg", b"image/png", b"x y"])) if rng.random() < 0.6 else None,
            "embedded_ack": rng.choice([0, 0, 0, 0, 5, 5, 50, 2, 4]), "file_ack": rng.choice([0, 0, 0, 0, 50, 5, 2]), "vary": rng.random() < 0.5}
     cfg = {"callers": nc, "split_seed": rng.getrandbits(48) | 1, "pic": pic}
+    # a second picture (URIs ending in _alt.flac), small, differing from the first in which source has data: several album art
+    # loads on ONE connection, in sequence and from different callers, must each be answered from their own URI's picture
+    multi = rng.random() < 0.5
+    if multi:
+        small = [-1, -1, 0, 1, limit, limit + 1, 2 * limit + 1] if limit < 64 else [-1, -1, 0, 1, 100, 4097]
+        cfg["pic2"] = {"embedded": rng.choice(small), "file": rng.choice(small), "limit": limit,
+                       "mime": list(rng.choice([b"image/gif", b"image/png"])) if rng.random() < 0.6 else None,
+                       "embedded_ack": rng.choice([0, 0, 0, 5, 50]), "file_ack": rng.choice([0, 0, 0, 50]), "vary": pic["vary"]}
     if rng.random() < 0.2:
         cfg["max_read"] = rng.choice([1, 5, 100, 4096])
     batches = []
     n = rng.randint(4, 14)
     art_at = rng.randint(0, 2)
+    first_alt = multi and rng.random() < 0.5
     for i in range(n):
         b = []
         if i == art_at:
-            b.append({"op": "issue", "c": 0, "kind": "art"})
+            b.append({"op": "issue", "c": 0, "kind": "art", "alt": first_alt})
         for _ in range(rng.choice([1, 1, 2])):
             x = rng.random()
             if x < 0.55:
@@ -178,6 +187,13 @@ def art(rng, run):
     # enough deliveries for many chunks
     for _ in range(min(60, (max(pic["embedded"], pic["file"], 0) // limit) + 4)):
         batches.append([{"op": "deliver"}])
+    if multi:
+        # further loads after the first one is (most likely) complete: the other URI, then the first kind again
+        for alt, c in ((not first_alt, rng.randrange(nc)), (first_alt, 0), (not first_alt, rng.randrange(nc)))[: rng.choice([1, 2, 3])]:
+            batches.append([{"op": "issue", "c": c, "kind": "art", "alt": alt}])
+            p = cfg["pic2"] if alt else pic
+            for _ in range(min(60, (max(p["embedded"], p["file"], 0) // limit) + 4)):
+                batches.append([{"op": "deliver"}] if rng.random() < 0.8 else [{"op": "deliver"}, {"op": "change", "subs": rng.sample(SUBS, 1)}])
     return {"run": run, "cfg": cfg, "batches": batches}
 
 
